@@ -31,6 +31,27 @@ pub fn run(args: &Args, rep: &mut Report) {
         }
         let n = args.scale(150, 2000);
         let mut rng = args.rng(salt);
+        // nested parallels completing in every order
+        for d in 0..args.scale(40, 600) {
+            if crate::report::should_stop() {
+                break;
+            }
+            let dm = dms[d % dms.len()];
+            let (doc, paths) = crate::corpus::done_tree(&mut rng, dm, d);
+            let f = match crate::refsim::Flat::from_doc(&doc) {
+                Ok(f) => f,
+                Err(e) => {
+                    w.rep.inconclusive(&format!("done_tree document rejected by the reference: {:?}", e));
+                    continue;
+                }
+            };
+            for p in &paths {
+                let b1 = w.dstats.done_parallel_events;
+                if w.run_one(&doc, &f, p, false) && w.dstats.done_parallel_events > b1 {
+                    w.rep.nontrivial_key(&format!("{}:{}", mode, distinct_key(&doc, p)));
+                }
+            }
+        }
         for d in 0..n {
             if crate::report::should_stop() {
                 break;
